@@ -55,6 +55,20 @@ Proof.
   destruct (apply_datum ic iz d') as [v|]; [|reflexivity]. rewrite IH.
   destruct (mapo (apply_datum ic iz) ds); cbn [option_map]; [rewrite <- app_assoc; reflexivity|reflexivity].
 Qed.
+Definition byte_of (v : gval) : Z := match v with VInt z => z | _ => 0 end.
+Lemma apply_array_bytes_go ic iz ds acc :
+  (fix go (ds : list datum) (acc : bytes) {struct ds} : option bytes :=
+     match ds with
+     | [] => Some acc
+     | d' :: ds' => match apply_datum ic iz d' with
+                    | Some v => go ds' (acc ++ [match v with VInt z => z | _ => 0 end])
+                    | None => None end
+     end) ds acc = option_map (app acc) (mapo (fun d' => option_map byte_of (apply_datum ic iz d')) ds).
+Proof.
+  revert acc. induction ds as [|d' ds IH]; intros acc; cbn [mapo option_map]; [rewrite app_nil_r; reflexivity|].
+  destruct (apply_datum ic iz d') as [v|]; cbn [option_map]; [|reflexivity]. rewrite IH. fold (byte_of v).
+  destruct (mapo (fun d'0 => option_map byte_of (apply_datum ic iz d'0)) ds); cbn [option_map app]; [rewrite <- app_assoc; reflexivity|reflexivity].
+Qed.
 Lemma apply_map_go vc vz kvs acc :
   (fix go (kvs : list (bytes * datum)) (acc : list (bytes * gval)) {struct kvs} : option (list (bytes * gval)) :=
      match kvs with
@@ -167,12 +181,24 @@ Proof.
       * rewrite (skip_exact _ _ _ _ _ _ W1 Ho0). cbn [obind]. eapply IHl; eauto.
   - (* CArray *)
     destruct s; try contradiction. cbn [wire] in W. rewrite sd_array_eq in Hsd. inv_obind Hsd. injection Hsd as <- <-.
-    destruct dest; try discriminate. cbn [apply_datum] in Ha. rewrite apply_array_go in Ha.
-    destruct (mapo (apply_datum c z) a) as [ys|] eqn:Em; [|discriminate]. injection Ha as <-.
-    rewrite c_read_array_eq. change (read_aitem fuel c z) with (app_item (c_read fuel c z)).
-    rewrite (blocks_simlist (sd fuel s) (c_read fuel c z) (apply_datum c z)
-               (fun bs x r y H1 H2 => IHc _ _ _ _ _ _ W H1 H2) fuel bs a r0 vs ys Ho Em).
-    reflexivity.
+    destruct dest as [| | | | |acc0| |vs| | | | | | |]; try discriminate.
+    + (* a []byte destination *)
+      cbn [apply_datum] in Ha. rewrite apply_array_bytes_go in Ha.
+      destruct (mapo (fun d' => option_map byte_of (apply_datum c z d')) a) as [ys|] eqn:Em; [|discriminate]. injection Ha as <-.
+      cbn [c_read].
+      set (f2 := fun b0 => obind (c_read fuel c z b0) (fun v r => Done (byte_of v) r)).
+      assert (Heq : forall acc b0, obind (c_read fuel c z b0) (fun v r => Done (acc ++ [match v with VInt z0 => z0 | _ => 0 end]) r) = app_item f2 acc b0).
+      { intros acc b0. unfold app_item, f2. destruct (c_read fuel c z b0); reflexivity. }
+      rewrite (blocks_ext false _ _ Heq).
+      rewrite (blocks_simlist (sd fuel s) f2 (fun d' => option_map byte_of (apply_datum c z d'))) with (xsf := a) (r := r0) (ysf := ys); [reflexivity| |exact Ho|exact Em].
+      intros b0 x r1 y H1 H2. unfold f2. destruct (apply_datum c z x) as [v0|] eqn:Eav; [|discriminate]. cbn [option_map] in H2. injection H2 as <-.
+      rewrite (IHc _ _ _ _ _ _ W H1 Eav). reflexivity.
+    + cbn [apply_datum] in Ha. rewrite apply_array_go in Ha.
+      destruct (mapo (apply_datum c z) a) as [ys|] eqn:Em; [|discriminate]. injection Ha as <-.
+      rewrite c_read_array_eq. change (read_aitem fuel c z) with (app_item (c_read fuel c z)).
+      rewrite (blocks_simlist (sd fuel s) (c_read fuel c z) (apply_datum c z)
+                 (fun bs x r y H1 H2 => IHc _ _ _ _ _ _ W H1 H2) fuel bs a r0 vs ys Ho Em).
+      reflexivity.
   - (* CMap *)
     destruct s; try contradiction. cbn [wire] in W. rewrite sd_map_eq in Hsd. inv_obind Hsd. injection Hsd as <- <-.
     cbn [apply_datum] in Ha. rewrite c_read_map_eq. unfold map_start.
